@@ -2,7 +2,7 @@
 # Run every registered quick (or thorough) check against /repo and validate the evidence files.
 # usage: tools/run_all.sh [quick|thorough] [ID ...]
 cd "$(dirname "$0")/.."
-TIER=${1:-quick}; shift 2>/dev/null
+TIER=${1:-quick}; [ $# -gt 0 ] && shift
 IDS="$@"
 [ -z "$IDS" ] && IDS=$(python3 -c "import json;print(' '.join(c['property_id'] for c in json.load(open('MANIFEST.json'))['checks']))")
 rc=0
